@@ -1,6 +1,16 @@
 # per-property claim texts used by mk_manifest.py
 NA = {}
 CLAIMS = {
+ 'C19': {
+  'technique': 'Coq proof on an attribute/hook ledger whose write- and remove-lists are regenerated from the grad_sample package (written subset of removed; unwrap restores the ledger for every activity sequence); real wrap/train/unwrap runs with before/after object snapshots',
+  'text': ('PARTIAL. The translator collects EVERY attribute assignment on parameters / modules in opacus/grad_sample/*.py and everything to_standard_module deletes (del_grad_sample, '
+           '_clean_up_attributes, remove_hooks over all parameters / trainable modules), checks that every hook registration of add_hooks is recorded in the shared handle list that remove_hooks '
+           'drains, that GradSampleModule.forward is the wrapped call and that DPOptimizer.param_groups / state / defaults / state_dict / load_state_dict are reads and writes of the inner optimizer. '
+           'Proved on the generated lists: written is a subset of removed; for ANY sequence of Opacus writes/deletes on any objects between wrap and to_standard_module the attribute ledger is the '
+           'user\'s own again and no handle is left. Real runs (6 model kinds incl. frozen parameter, custom layer, norms x hooks/functorch/ew/ghost x pending forward/backward) compare forward '
+           'outputs, parameter identity, state_dict load-back, lr-scheduler pass-through, post-unwrap hooks/attributes against a pre-wrap snapshot, and ordinary training vs a never-wrapped twin. '
+           'Object identity and torch\'s module call are runtime facts covered by the runs only; p.summed_grad (optimizer-owned aggregate) is reported, not judged.'),
+ },
  'C18': {
   'technique': 'Coq proofs over R (all world sizes, shard contents, reductions) on expressions regenerated from the distributed optimizers; real gloo multi-process runs vs a single-process reference; binary64 correspondence of the generated release',
   'text': ('Proved over R for the expressions generated from DistributedDPOptimizer / DistributedDPOptimizerFastGradientClipping (add_noise rank test, reduce_gradients, scale_grad denominator, '
